@@ -163,15 +163,74 @@ def judge(st, c, cwd, out, code, vehicle, dirs):
         st.sample({"args": ["find", "r"] + c["toks"], "sequence": out[:160]})
 
 
+def order_worker(job):
+    """Follow modes: the statement's ancestor/descendant order must hold for whatever is visited (oracle-free invariant)."""
+    k, ntrees, seed = job
+    st = Stats()
+    rng = common.rng_for(seed, "C03o", k)
+    base = common.mkscratch("C03o%d" % k)
+    try:
+        for t in range(ntrees):
+            sb = os.path.join(base, "t%d" % t)
+            os.makedirs(sb)
+            nodes = treegen.random_tree(rng, "r", max_nodes=rng.choice([8, 20, 40]), max_depth=5, names=NAMES, p_link=0.25, p_dir=0.4,
+                                        link_kinds=("file", "dir", "dangling", "outside"))
+            nodes.append(treegen.Node("lroot", "l", target="r"))
+            treegen.build(sb, nodes)
+            cases = []
+            for i in range(8):
+                mode = rng.choice(["-P", "-H", "-L"])
+                root = rng.choice(["r", "lroot"])
+                df = rng.random() < 0.6
+                extra = rng.choice([[], [], ["-mindepth", "1"], ["-maxdepth", "2"]])
+                args = ["find", mode, root, "-sorted"] + (["-depth"] if df else []) + extra + ["-print0"]
+                cases.append(("%d_%d_%d" % (k, t, i), args, df, mode, root))
+            res = common.run_find_inproc([(c[0], c[1]) for c in cases], base, sb)
+            for cid, args, df, mode, root in cases:
+                r = res[cid]
+                if r.special or r.panic:
+                    st.violate("panic-or-hang", None, {"args": args, "msg": r.panic}, {"args": args})
+                    continue
+                paths = [p.decode("utf-8", "surrogateescape") for p in r.out.split(b"\0")[:-1]]
+                st.inc("evaluations")
+                st.inc("order_invariant_runs")
+                st.inc("order_runs(%s,%s,%s)" % (mode, "symlinked-root" if root == "lroot" else "dir-root", "depth" if df else "default"))
+                st.add("distinct", (tuple(args), tuple(paths)))
+                index = {}
+                for i, p in enumerate(paths):
+                    index.setdefault(p, i)
+                bad = None
+                for i, p in enumerate(paths):
+                    parent = p.rsplit("/", 1)[0] if "/" in p else None
+                    while parent:
+                        if parent in index:
+                            if not df and index[parent] > i:
+                                bad = "directory %r printed after %r beneath it" % (parent, p)
+                            if df and index[parent] < i:
+                                bad = "directory %r printed before %r beneath it (with -depth)" % (parent, p)
+                        parent = parent.rsplit("/", 1)[0] if "/" in parent else None
+                    if bad:
+                        break
+                if bad:
+                    st.violate("ancestor-order", None, {"args": args, "problem": bad, "sequence": paths[:30]}, {"args": args, "tree": [n.to_json() for n in nodes]})
+            common.force_rmtree(sb)
+    finally:
+        common.force_rmtree(base)
+    return st
+
+
 def run(ctx):
     ctx.rule = ("trees with 2-5 levels and sibling names separating byte order from locale order; prune sets chosen by "
                 "-name/-path/-iname/-regex/glob tests in 8 expression shapes, with/without -depth, dead -delete, depth bounds; "
                 "exact sequence compared; distinct = (argv, expected sequence)")
-    ctx.assumptions = ["reference walk/evaluator (lib/refwalk.py, lib/refeval.py)", "follow mode -P only (statement does not quantify over follow modes)"]
+    ctx.assumptions = ["reference walk/evaluator (lib/refwalk.py, lib/refeval.py)", "exact sequences under -P; under -H/-L (incl. a symlinked starting point) only the statement's ancestor/descendant order invariant is judged"]
     c01.self_check(ctx.scratch())
     nw = common.NCPU
     ntrees = ctx.scale(320, 8000)
     jobs = [(k, ntrees // nw, ctx.scale(10, 14), ctx.seed, ctx.scale(30, 80), 1) for k in range(nw)]
     ctx.pmap(worker, jobs)
+    ctx.pmap(order_worker, [(k, ctx.scale(10, 300), ctx.seed) for k in range(nw)])
+    ctx.require("order_runs(-H,symlinked-root,depth)", 5)
+    ctx.require("order_runs(-L,symlinked-root,depth)", 5)
     for key in ("runs_with_subtree_cut", "metamorphic_depth_pairs", "runs_depth_first(depth)", "runs_depth_first(delete)", "binary_runs"):
         ctx.require(key, 5)
